@@ -1,6 +1,8 @@
 """C07 — heartbeat ingestion through the store equals heartbeat_reduce (aw-core's share)."""
 import ast
 
+from ..rules_wrap import wrapper_rules
+
 from ..model import norm, walk_own
 from ..rules_codec import codec_peewee, codec_sqlite
 from ..rules_commit import check_no_rollback
@@ -31,6 +33,7 @@ def check(prog, rep):
     codec_peewee(prog, rep)
     # an accepted heartbeat stays: nothing rolls the shared open transaction back
     check_no_rollback(prog, rep)
+    wrapper_rules(prog, rep)
     rep.rule("PASS", "Bucket.replace_last / Bucket.insert hand the caller's event to the backend unchanged")
     for m, callee, idx, p in (("replace_last", "replace_last", 1, "event"), ("insert", "insert_one", 1, "events")):
         fi = prog.func(f"Bucket.{m}")
